@@ -327,7 +327,6 @@ func tbReconnect(c *TBCase, b *natsim.Broker, h *Hist, out *Outcome) {
 // ---- C15: release of the query subscription -----------------------------------
 
 func tbQueryRelease(c *TBCase, b *natsim.Broker, h *Hist, out *Outcome) {
-	leakBase := stacksContaining("startQueryListener")
 	svc := res.NewService("test")
 	svc.SetLogger(nil)
 	svc.SetQueryEventDuration(time.Duration(c.QueryMs) * time.Millisecond)
@@ -366,6 +365,9 @@ func tbQueryRelease(c *TBCase, b *natsim.Broker, h *Hist, out *Outcome) {
 	respCh := make(chan *nats.Msg, 256)
 	peer.ChanSubscribe("_REPLY.>", respCh)
 	settle(10 * time.Millisecond)
+	// the service is up and idle: whatever goroutines the library starts
+	// from here on belong to the query events
+	leakBase := libraryGoroutines()
 	responses := 0
 	sent := 0
 	for k := 0; k < c.NQE; k++ {
@@ -414,7 +416,7 @@ func tbQueryRelease(c *TBCase, b *natsim.Broker, h *Hist, out *Outcome) {
 	if strings.Join(after, ",") != strings.Join(base, ",") {
 		h.Violate("C15", "subscription-not-released", "", fmt.Sprintf("after %d query events expired the broker still holds subscriptions of the service beyond its own: before %v, after %v", c.NQE, base, after))
 	}
-	if n := stacksContaining("startQueryListener") - leakBase; n > 0 {
+	if n := libraryGoroutines() - leakBase; n > 0 {
 		h.Violate("C15", "leak", "(*queryEvent).startQueryListener", fmt.Sprintf("%d query listener goroutine(s) remain after %d query events expired (real nats.Conn)", n, c.NQE))
 	}
 	tbShutdown(svc, nc, h)
